@@ -3,7 +3,7 @@ import RlModel.Model.Stream
 /-!
 C15 driver.  One request per line:
 
-  (query <tree>) | (dml <id> <ft> <tree>) | (chan <cap> <act>…)
+  (query <tree>) | (dml <id> <ft> <tree>) | (chan <cap> <act>…) | (txn <limit> <rows of chunk>…)
 
   tree ::= (leaf <id> <ft> (outs n…) end|err)
          | (stream <id> <ft> (outs n…) none|<j> <tree>)
@@ -113,6 +113,13 @@ def answer (line : String) : String :=
         | some cs => s!"commit {rowsStr cs} {sameStr (some cs) r0.committed}"
       s!"{outStr false r.out r0.out} {d}"
     | _, _, _ => "bad-request"
+  | some (.list (.atom "txn" :: limit :: sizes)) =>
+    -- the write transaction: chunk row counts appended before the statement ended / failed
+    match nat? limit, sizes.mapM nat? with
+    | some limit, some sizes =>
+      let t := (WTxn.start ([] : List (List Nat))).appendAll limit id sizes
+      s!"started {t.started} pending {t.pending.length} visible {t.abort.length} commit {t.commit.length}"
+    | _, _ => "bad-request"
   | some (.list (.atom "chan" :: cap :: acts)) =>
     match nat? cap, acts.mapM chanAct? with
     | some cap, some acts =>
